@@ -148,7 +148,7 @@ class Token:
 
 def _convert_params(params: Dict[str, Callable]) -> Dict[str, Any]:
     conversion_table = {
-        "range": lambda x: {"min_value": x[0], "max_value": x[1]},
+        "range": lambda x: {"min_value": float(x[0]), "max_value": float(x[1])},
         "unit": lambda x: {"unit": x[0]},
     }
 
